@@ -186,6 +186,35 @@ def tentative_table_rollback(prog, res):
     res.need(R, 2)
 
 
+def long_length_bonus(prog, res):
+    """T9 (one idiom, several users): the sequence store keeps at most one length above 16 bits, flagged by
+    (longLengthType, longLengthPos).  Every place that adds the 0x10000 bonus to a length or byte count does so only for the
+    sequence at longLengthPos."""
+    R = "T9.long-length-bonus"
+    n = 0
+    for f in prog.all_functions():
+        if not f.file.startswith("lib/compress/"):
+            continue
+        if not any(y.get("k") == "mem" and y.get("f") == "longLengthType" for _, _, r in f.roots() for y in walk(r)):
+            continue
+        adds = []
+        for b, i, r in f.roots():
+            for x in walk(r):
+                if x.get("k") == "asg" and x.get("op") == "+=" and const_val(x["rhs"]) == 0x10000:
+                    adds.append((b, i, x))
+                elif x.get("k") == "bin" and x.get("op") == "+" and (const_val(x["rhs"]) == 0x10000 or const_val(x["lhs"]) == 0x10000) and "v" not in x:
+                    adds.append((b, i, x))
+        if not adds:
+            continue
+        pos_edges = set(cond_edges(f, lambda c: c.get("k") == "bin" and c["op"] == "==" and "f:longLengthPos" in f.anchors(c, depth=1), "true"))
+        for b, i, x in adds:
+            n += 1
+            ok = bool(pos_edges) and f.must_pass(via_edges=pos_edges, targets=[(b, i)])
+            res.check(ok, R, "%s@%s" % (f.name, x.get("l")), "%s:%s" % (f.file, x.get("l")), "the 0x10000 bonus is added only on the `== longLengthPos` edge",
+                      "%s adds the long-length bonus without testing that the sequence is the one at longLengthPos: byte counts of a sequence range that does not contain the long sequence are 64 KB too large" % f.name)
+    res.need(R, 4)
+
+
 def run(tier):
     res = Result("C01", tier)
     tus, info = extract(["compress", "decompress", "common"])
@@ -196,6 +225,7 @@ def run(tier):
     family_coherence(prog, res)
     fallback_and_handover(prog, res)
     tentative_table_rollback(prog, res)
+    long_length_bonus(prog, res)
     t4_common.run(prog, res, "T4.error-discipline", ["lib/compress/"], 220)
     # frozen guards of lib/compress for the error codes this property owns (shared inventory, split by code)
     import json as _json, os as _os
